@@ -552,8 +552,8 @@ Proof.
     pose proof (T h' i Hl Hst Hid). congruence.
 Qed.
 
-Lemma cinv_close_body s h : (h < length (chans s))%nat -> rank (ch_state (getc s h)) <= 2 -> cinv s ->
-  cinv (fst (close_body s h)) /\ no3 (snd (close_body s h)).
+Lemma cinv_close_body s h hs : (h < length (chans s))%nat -> rank (ch_state (getc s h)) <= 2 -> cinv s ->
+  cinv (fst (close_body s h hs)) /\ no3 (snd (close_body s h hs)).
 Proof.
   intros Hh Hr C. unfold close_body.
   rewrite (pair_eta (set_ready s h Closing)).
@@ -570,7 +570,7 @@ Proof.
   assert (Hloc : cinv (fst (close_local s1 h (ch_id (getc s h)))) /\ no3 (snd (close_local s1 h (ch_id (getc s h))))).
   { rewrite <- Eid. apply cinv_close_local; auto. lia. }
   assert (N1 : no3 (snd (set_ready s h Closing))) by apply set_ready_no3.
-  destruct (established s1) eqn:Ee.
+  destruct (established s1 || hs) eqn:Ee.
   - destruct (ch_id (getc s h)) as [i|] eqn:Ei.
     + cbn [fst snd]. split.
       * eapply cinv_same; [| | |exact C1]; reflexivity.
@@ -580,8 +580,8 @@ Proof.
     destruct (ch_id (getc s h)); cbn [fst snd]; destruct Hloc as [X Y]; (split; [exact X|now apply no3_app]).
 Qed.
 
-Lemma cinv_chan_close s h : (h < length (chans s))%nat -> cinv s ->
-  cinv (fst (chan_close s h)) /\ no3 (snd (chan_close s h)).
+Lemma cinv_chan_close s h hs : (h < length (chans s))%nat -> cinv s ->
+  cinv (fst (chan_close s h hs)) /\ no3 (snd (chan_close s h hs)).
 Proof.
   intros Hh C. unfold chan_close. destruct (ch_state (getc s h)) eqn:E;
     try (split; [exact C|apply no3_nil]); apply cinv_close_body; auto; rewrite E; cbn; lia.
@@ -597,7 +597,7 @@ Qed.
 Lemma cinv_reset_streams : forall strs s, cinv s -> cinv (fst (reset_streams s strs)) /\ no3 (snd (reset_streams s strs)).
 Proof.
   induction strs as [|i strs IH]; intros s C; cbn [reset_streams]; [split; [exact C|apply no3_nil]|].
-  set (p := match tget (table s) i with Some h => chan_close s h | None => (s, []) end).
+  set (p := match tget (table s) i with Some h => chan_close s h false | None => (s, []) end).
   assert (Hp : cinv (fst p) /\ no3 (snd p)).
   { unfold p. destruct (tget (table s) i) as [h|] eqn:Et; [|split; [exact C|apply no3_nil]].
     apply cinv_chan_close; auto. destruct C as [[A _] _]. eapply tget_handles; eauto. }
@@ -660,7 +660,7 @@ Proof.
   set (s0 := mkSt true (dc_id s) (chans s) (table s) (queue s) (rq_queue s) (rq_request s) (rq_req_seq s) (rq_resp_seq s)).
   assert (C0 : cinv s0) by (eapply cinv_same; [| | |exact C]; reflexivity).
   destruct (cinv_open_negotiated (table s0) s0 C0) as [C1 N1]. rewrite (pair_eta (open_negotiated s0 (table s0))). cbn [fst snd].
-  split; [exact C1|apply no3_app; [exact N1|intros [H|[]]; discriminate]].
+  split; [exact C1|apply no3_app; [exact N1|destruct (rq_queue (fst _)); [intros [H|[]]; discriminate|intros [H|[H|[]]]; discriminate]]].
 Qed.
 
 Lemma set_ready_chans s s' h r : chans s = chans s' -> chans (fst (set_ready s h r)) = chans (fst (set_ready s' h r)).
@@ -914,7 +914,7 @@ Proof.
   apply pres_frame; auto.
 Qed.
 
-Lemma pres_close_body s h : (h < length (chans s))%nat -> rank (ch_state (getc s h)) <= 2 -> pres s (fst (close_body s h)).
+Lemma pres_close_body s h hs : (h < length (chans s))%nat -> rank (ch_state (getc s h)) <= 2 -> pres s (fst (close_body s h hs)).
 Proof.
   intros Hh Hr. unfold close_body.
   rewrite (pair_eta (set_ready s h Closing)).
@@ -925,14 +925,14 @@ Proof.
   { unfold s1. rewrite getc_set_ready. destruct (_ && _ && _)%bool; reflexivity. }
   assert (Hloc : pres s (fst (close_local s1 h (ch_id (getc s h))))).
   { rewrite <- Eid. eapply pres_trans; [exact P1|apply pres_close_local; lia]. }
-  destruct (established s1).
+  destruct (established s1 || hs).
   - destruct (ch_id (getc s h)) as [i|] eqn:Ei.
     + cbn [fst]. eapply pres_same_r; [exact P1| |]; reflexivity.
     + rewrite (pair_eta (close_local s1 h None)). cbn [fst]. exact Hloc.
   - rewrite (pair_eta (close_local s1 h (ch_id (getc s h)))). destruct (ch_id (getc s h)); cbn [fst]; exact Hloc.
 Qed.
 
-Lemma pres_chan_close s h : (h < length (chans s))%nat -> pres s (fst (chan_close s h)).
+Lemma pres_chan_close s h hs : (h < length (chans s))%nat -> pres s (fst (chan_close s h hs)).
 Proof.
   intros Hh. unfold chan_close. destruct (ch_state (getc s h)) eqn:E; try apply pres_refl;
     apply pres_close_body; auto; rewrite E; cbn; lia.
@@ -947,11 +947,11 @@ Qed.
 Lemma pres_reset_streams : forall strs s, wf s -> pres s (fst (reset_streams s strs)) /\ wf (fst (reset_streams s strs)).
 Proof.
   induction strs as [|i strs IH]; intros s W; cbn [reset_streams]; [split; [apply pres_refl|exact W]|].
-  set (p := match tget (table s) i with Some h => chan_close s h | None => (s, []) end).
+  set (p := match tget (table s) i with Some h => chan_close s h false | None => (s, []) end).
   assert (Hp : pres s (fst p) /\ wf (fst p)).
   { unfold p. destruct (tget (table s) i) as [h|] eqn:Et; [|split; [apply pres_refl|exact W]].
     assert (Hh : (h < length (chans s))%nat) by (destruct W as [A _]; eapply tget_handles; eauto).
-    split; [now apply pres_chan_close|]. exact (proj1 (chan_close_good s h Hh W)). }
+    split; [now apply pres_chan_close|]. exact (proj1 (chan_close_good s h false Hh W)). }
   rewrite (pair_eta p). destruct Hp as [P1 W1]. destruct (IH (fst p) W1) as [P2 W2].
   rewrite (pair_eta (reset_streams (fst p) strs)). cbn [fst]. split; [eapply pres_trans; eauto|exact W2].
 Qed.
@@ -1118,7 +1118,7 @@ Proof.
     destruct (cinv_app_send s h pp data Hh Hi C) as [C1 N1].
     split; [split; [exact C1|eapply t3_pres; [exact T3|apply pres_app_send]]|exact N1].
   - destruct (Nat.ltb_spec h (length (chans s))) as [Hh|Hh]; [|split; [split; assumption|apply no3_nil]].
-    destruct (cinv_chan_close s h Hh C) as [C1 N1].
+    destruct (cinv_chan_close s h hs Hh C) as [C1 N1].
     split; [split; [exact C1|eapply t3_pres; [exact T3|now apply pres_chan_close]]|exact N1].
   - destruct (Nat.ltb_spec h (length (chans s))) as [Hh|Hh]; [|split; [split; assumption|apply no3_nil]].
     cbn [fst snd]. split; [split; [now apply cinv_threshold|]|apply no3_nil].
